@@ -62,6 +62,10 @@ class Dual:
     def __rtruediv__(self, o):
         return Dual.lift(o, self.n).__truediv__(self)
 
+    def __pow__(self, k):
+        assert not isinstance(k, Dual)
+        return self._un(lambda v: v ** k, lambda v: k * v ** (k - 1))
+
     def __neg__(self):
         return Dual(-self.val, -self.jac)
 
@@ -87,6 +91,11 @@ class DualNS:
     @staticmethod
     def exp(a):
         return a._un(onp.exp, onp.exp)
+
+    @staticmethod
+    def maximum(a, k):
+        assert not isinstance(k, Dual)
+        return Dual(onp.maximum(a.val, k), (a.val > k).astype(float)[..., None] * a.jac)
 
     @staticmethod
     def reshape(a, shape):
